@@ -27,6 +27,9 @@ CLAIMED = {
     'C10': ('discipline theorem over a happens-before model (every plain location guarded by a mutex / published by release-acquire / thread-local / immutable => no data race), skiplist publication '
             'protocol safe for the memory orders found in the source, and obligations over tables regenerated from the CURRENT source on every run (every access to mutex-protected state with the '
             'lock state at the access; every atomic operation with its order) re-proved by kernel evaluation; ThreadSanitizer workload as search', 'Lean 4 proof + translators regenerating lock/atomics tables from source + TSan search', '7 C10'),
+    'C11': ('crc_detects_single_byte (every alteration confined to one byte of a checksummed region changes the CRC: no probabilistic hypothesis), read_sound for the log reader, footer '
+            'padding irrelevance; real databases copied and damaged (tables at positions over the whole file, logs, MANIFEST, CURRENT) and read back with paranoid checks and checksum verification: '
+            'right answer or error, complete scan or error; never a value that was not written', 'Lean 4 proof + corruption replay on real databases', '7 C11'),
     'C12': ('kill/close durability theorems applied to the conforming prefix before the fault; fault-injection runs of the real code (k-th call fails; ENOSPC/EIO/EMFILE/ENOENT; one-shot/persistent; '
             'partial writes) through the same crash oracle: no crash or hang, reads correct, every acknowledged write present after reopen', 'Lean 4 proof + fault-injection trace validation', '7 C12'),
     'C13': ('keep-rule/live-set model: at every quiescent point the directory must contain exactly the live tables, the current log(s), one MANIFEST; every live file number below next_file_number',
